@@ -18,9 +18,11 @@ PROVED IN FULL (no well-formedness hypothesis):
                                                    behaves as if the refused call had not happened)
   * `free_never_asks_for_memory`, `realloc_copy` — glue facts of the entry points
   * `wf_init`
-PROVED FROM `WF` OF THE STATE BEFORE THE CALL (a genuine step theorem):
-  * `alloc_fresh_from_pre` — a malloc (alignment ≤ 16) that needs no OS call takes its memory from a
-    chunk that was free and at least as large as the padded request, so the new block overlaps no
+PROVED FROM `WF` OF THE STATE BEFORE THE CALL (genuine step theorems, all alignments, with or
+without an OS call, under the mmap contract `OsContract` for the answer received):
+  * `alloc_fresh_from_pre`, `calloc_fresh_from_pre` — the new block is carved from a chunk that was
+    free and large enough (small bin / tree bin / dv / top) or from the mapping just served, and for
+    over-aligned requests lies inside the chunk obtained for the padded request; so it overlaps no
     previously live block
 PROVED FROM `WF` OF A STATE (`WF` is evaluated by the driver on every state of every explored
 history — a hypothesis checked by the correspondence; its inductiveness `wf_step` is NOT proved):
@@ -36,7 +38,7 @@ FULL STATEMENT NOT PROVED (kept for the record):
 -/
 import TinyVerif.Proofs.DlPure
 import TinyVerif.Proofs.DlWF
-import TinyVerif.Proofs.DlVictim
+import TinyVerif.Proofs.DlFresh
 namespace TinyVerif.Dl
 
 /-! ## 1. pure_index_lemmas — about `Gen/DlmallocPure.lean` (re-checked against the Rust text on every run) -/
@@ -234,17 +236,58 @@ theorem free_ok_partial (hs hs' : Hist) (id : Nat) (os : List OsDir) (out : Out)
   obtain ⟨b, hb, hl⟩ := step_free_live h
   exact ⟨b, hb, hl, fun hwf _ h1 _ h2 hne => live_disjoint hwf h1 h2 hne⟩
 
-/-- **alloc_fresh** — a step theorem from `WF` of the state BEFORE the call: an ordinary-alignment
-`malloc` that makes no OS call returns memory carved out of a chunk that was free (taken from a small
-bin, a tree bin, `dv` or `top`, at least as large as the padded request), hence the new block
-overlaps no block that was live.  (With an OS call the new block lies in `top` of the old heap or in
-the fresh mapping, which the OS contract makes disjoint from every segment; over-aligned requests
-and realloc go through the same `inner_malloc` — these cases are covered by `alloc_ok_partial`.) -/
-theorem alloc_fresh_from_pre (hs hs' : Hist) (hwf : WF hs) (id size align : Nat) (os : List OsDir) (out : Out)
-    (h : hs.step (.malloc id size align) os = .ok (hs', out)) (hal : align ≤ MALLOC_ALIGNMENT)
-    (hp : out.ptr ≠ 0) (hnoos : hs'.st.evs = []) (hsz : 0 < size) :
-    ∀ b ∈ hs.live, out.ptr + size ≤ b.ptr ∨ b.ptr + b.size ≤ out.ptr :=
-  step_malloc_fresh hwf h hal hp hnoos hsz
+/-- the mmap contract for the answers one operation receives: if the first answer serves a mapping,
+that mapping (of the size `sys_alloc` asks for) is 16-aligned, not null, inside the address space and
+disjoint from every segment the allocator holds -/
+def OsContract (hs : Hist) (os : List OsDir) (size align : Nat) : Prop :=
+  ∀ tbase q, os = .m (some tbase) :: q → OsFresh hs.st tbase (mapSize (reqOf size align))
+
+/-- **alloc_fresh** — a step theorem from `WF` of the state BEFORE the call, for every alignment
+2^k and whether or not the OS is asked: the block returned by `malloc` is carved out of a chunk that
+was free (taken from a small bin, a tree bin, `dv` or `top`, at least as large as the padded request),
+or out of the mapping the OS just served (possibly starting in the old `top` it extends), and for an
+over-aligned request lies inside the chunk obtained for the padded request — hence it overlaps no
+block that was live. -/
+theorem alloc_fresh_from_pre (hs hs' : Hist) (hwf : WF hs) (id size k : Nat) (os : List OsDir) (out : Out)
+    (h : hs.step (.malloc id size (2 ^ k)) os = .ok (hs', out)) (hk : k ≤ 32)
+    (hp : out.ptr ≠ 0) (hsz : 0 < size) (hmax : size < MAX_REQUEST) (hos : OsContract hs os size (2 ^ k)) :
+    ∀ b ∈ hs.live, out.ptr + size ≤ b.ptr ∨ b.ptr + b.size ≤ out.ptr := by
+  unfold Hist.step at h
+  dsimp only at h
+  msimp at h
+  obtain ⟨_, _, ⟨s1, p⟩, hm, _, _, h⟩ := h
+  simp only [Prod.mk.injEq] at h
+  obtain ⟨h1, h2⟩ := h
+  subst h1; subst h2
+  exact malloc_fresh hwf (s := hs.start os) ⟨rfl, rfl, rfl, rfl, rfl, rfl, rfl⟩ rfl hk hm hp hsz hmax hos
+
+/-- the same for `calloc` -/
+theorem calloc_fresh_from_pre (hs hs' : Hist) (hwf : WF hs) (id size k : Nat) (os : List OsDir) (out : Out)
+    (h : hs.step (.calloc id size (2 ^ k)) os = .ok (hs', out)) (hk : k ≤ 32)
+    (hp : out.ptr ≠ 0) (hsz : 0 < size) (hmax : size < MAX_REQUEST) (hos : OsContract hs os size (2 ^ k)) :
+    ∀ b ∈ hs.live, out.ptr + size ≤ b.ptr ∨ b.ptr + b.size ≤ out.ptr := by
+  unfold Hist.step at h
+  dsimp only at h
+  msimp at h
+  obtain ⟨_, _, ⟨s1, p, z⟩, hm, _, _, h⟩ := h
+  simp only [Prod.mk.injEq] at h
+  obtain ⟨h1, h2⟩ := h
+  subst h1; subst h2
+  unfold calloc at hm
+  msimp at hm
+  obtain ⟨⟨s2, p2⟩, hmal, hm⟩ := hm
+  dsimp only at hm
+  split at hm
+  · rename_i hp2
+    msimp at hm
+    mlast hm
+    simp only [Prod.mk.injEq] at hm
+    obtain ⟨_, hpp, _⟩ := hm
+    subst hpp
+    exact malloc_fresh hwf (s := hs.start os) ⟨rfl, rfl, rfl, rfl, rfl, rfl, rfl⟩ rfl hk hmal hp2 hsz hmax hos
+  · msimp at hm
+    simp only [Prod.mk.injEq] at hm
+    exact absurd hm.2.1.symm hp
 
 /-- **oom_null** (full): if the OS refused an mmap during an operation, the operation returned null,
 the allocator's state is exactly what it was before the call and the set of live blocks is
@@ -319,13 +362,35 @@ example : ∃ hs' out, demoState.step (.malloc 7 70000 4096) [.m none] = .ok (hs
   exact ⟨v.1, v.2, hv, hp⟩
 
 set_option maxRecDepth 20000 in
-/-- hypotheses of `alloc_fresh_from_pre`: a request served from a tree bin without any OS call -/
-example : ∃ hs' out, demoState.step (.malloc 9 200 8) [] = .ok (hs', out) ∧ out.ptr ≠ 0 ∧ hs'.st.evs = [] ∧
-    WF demoState := by
-  obtain ⟨v, hv, hp⟩ := ok_of_matchB (x := demoState.step (.malloc 9 200 8) [])
-    (p := fun v => decide (v.2.ptr ≠ 0) && decide (v.1.st.evs = []) && wfb demoState) (by decide)
+/-- hypotheses of `alloc_fresh_from_pre`: a request served from a tree bin without any OS call … -/
+example : ∃ hs' out, demoState.step (.malloc 9 200 (2 ^ 3)) [] = .ok (hs', out) ∧ out.ptr ≠ 0 ∧
+    WF demoState ∧ OsContract demoState [] 200 (2 ^ 3) := by
+  obtain ⟨v, hv, hp⟩ := ok_of_matchB (x := demoState.step (.malloc 9 200 (2 ^ 3)) [])
+    (p := fun v => decide (v.2.ptr ≠ 0) && wfb demoState) (by decide)
   simp only [Bool.and_eq_true, decide_eq_true_eq] at hp
-  exact ⟨v.1, v.2, hv, hp.1.1, hp.1.2, hp.2⟩
+  exact ⟨v.1, v.2, hv, hp.1, hp.2, fun tbase q hq => by cases hq⟩
+
+set_option maxRecDepth 20000 in
+/-- … and an over-aligned one for which the OS serves a fresh mapping below the heap -/
+example : ∃ hs' out, demoState.step (.calloc 9 70000 (2 ^ 12)) [.m (some 524288)] = .ok (hs', out) ∧ out.ptr ≠ 0 ∧
+    OsContract demoState [.m (some 524288)] 70000 (2 ^ 12) := by
+  obtain ⟨v, hv, hp⟩ := ok_of_matchB (x := demoState.step (.calloc 9 70000 (2 ^ 12)) [.m (some 524288)])
+    (p := fun v => decide (v.2.ptr ≠ 0)) (by decide)
+  simp only [decide_eq_true_eq] at hp
+  refine ⟨v.1, v.2, hv, hp, ?_⟩
+  intro tbase q hq
+  injection hq with h1 _
+  injection h1 with h1
+  injection h1 with h1
+  subst h1
+  refine ⟨by decide, by decide, by decide, ?_⟩
+  intro g hg
+  have : demoState.st.segs = [{ base := 1048576, size := 65536, recAt := 0 }] := by decide
+  rw [this] at hg
+  simp only [List.mem_singleton] at hg
+  subst hg
+  left
+  decide
 
 set_option maxRecDepth 20000 in
 example : ∃ hs' out, demoState.step (.free 1) [] = .ok (hs', out) ∧ WF hs' := by
